@@ -91,14 +91,40 @@ def gen_cases(rng, tier):
               "drop;adv:32001;select", "drop;adv:31999;select;adv:40000;drop;adv:32001",
               "drop,select;adv:32001", "drop,select;adv:40000;frame", "drop,select;adv:31999;adv:2;select", "drop,select,drop;adv:32001"):
         cases.append(["e%d" % k, "c15", "out", g]); k += 1
+    # a message that becomes readable half a millisecond before the 32 s are over (the runtime sees it in the tick in which the idle
+    # timer fires): it arrived in time, it is delivered and restarts the 32 s; half a millisecond after, the connection is gone
+    for init in ("out", "in"):
+        pre = "drop;" if init == "out" else ""
+        for g in (pre + "gate:31999500,frame;adv:31999;adv:1;adv:10;adv:31980;adv:30",
+                  pre + "adv:7;gate:31999500,frame;adv:31999;adv:1;adv:31990;adv:20",
+                  pre + "gate:32000500,frame;adv:31999;adv:1;adv:10",
+                  pre + "gate:15000500,frame;adv:15000;adv:1;adv:31990;adv:20"):
+            cases.append(["e%d" % k, "c15", init, g]); k += 1
     return cases
 
 
 def model_case(case, impl):
     """a selection for an unrelated destination does not concern the connection under test: the model does not see it"""
     groups = []
+    rem = None      # microseconds until a gated message becomes readable: the model sees it as a message at that millisecond
     for g in case[3].split(";"):
-        evs = [e for e in g.split(",") if e and e != "other"]
+        evs = []
+        for e in [e for e in g.split(",") if e and e != "other"]:
+            if e.startswith("gate:"):
+                rem = int(e[5:])
+            elif e == "frame" and rem is not None:
+                pass
+            elif e.startswith("adv:") and rem is not None:
+                x = int(e[4:])
+                if x * 1000 < rem:
+                    rem -= x * 1000
+                    evs.append(e)
+                else:
+                    a = rem // 1000
+                    evs += (["adv:%d" % a] if a else []) + ["frame", "adv:%d" % (x - a)]
+                    rem = None
+            else:
+                evs.append(e)
         groups.append(",".join(evs) if evs else "adv:0")
     return case[:3] + [";".join(groups)] + case[4:]
 
@@ -124,6 +150,8 @@ def oracle(case, impl):
     idle_since = 0 if case[2] == "in" else None
     now = 0
     prev_d = 0
+    gate = None         # instant (ms, may be fractional) at which what the peer wrote becomes readable
+    pending = []
     # "once the last handle is dropped it is closed and unregistered after 32 s without traffic":
     # idle_since = instant of the last drop-to-zero or of the last message on the unreferenced connection
     for g, o in zip(groups, obs):
@@ -139,6 +167,10 @@ def oracle(case, impl):
                 refs = max(0, refs - 1)
             elif e == "clone" and refs > 0:
                 refs += 1
+            elif e.startswith("gate:"):
+                gate = now + int(e[5:]) / 1000.0
+            elif e == "frame" and not closed and gate is not None and gate > now:
+                pending.append(gate)
             elif e == "frame" and not closed:
                 frames_sent += 1
                 if refs == 0:
@@ -149,6 +181,14 @@ def oracle(case, impl):
                 garbage = True
             elif e.startswith("adv:"):
                 now += int(e[4:])
+                for a in [a for a in pending if a <= now]:
+                    pending.remove(a)
+                    if refs == 0 and idle_since is not None and a - idle_since >= 32000:
+                        gone = True          # it came too late: the connection had been idle for 32 s
+                    else:
+                        frames_sent += 1
+                        if refs == 0:
+                            idle_since = a
             elif e == "select":
                 r = sel[si] if si < len(sel) else "?"
                 si += 1
